@@ -4,11 +4,13 @@ import FlVerif.Base.Dec
 import FlVerif.Gen.TermGen
 import FlVerif.Op.Infer
 import FlVerif.Op.PyExtDiscrete
+import FlVerif.Op.Fld
 import FlVerif.Drv.Defuzz
 
 /-! Driver commands for models that came with the code ties (DESIGN.md 0.7) and had no differential stream of their
     own: `Op/Infer.lean` (C01: `Engine.infer_type`, `Variable.highest_membership`, `Variable.fuzzify`),
-    `Op.Weighted.highestActivated` and `Aggregated.range` (C10). -/
+    `Op.Weighted.highestActivated` and `Aggregated.range` (C10), `Op.Fld.write` with recording stubs for the NumPy /
+    engine operations (C18). -/
 
 namespace Drv
 open SExp
@@ -100,6 +102,48 @@ def tmFuzzyValue (a : (String × Py.M (X Rat)) × X Rat) (padding : Bool) : Stri
   let sign := if padding then (if neg then " - " else " + ") else (if neg then "-" else "")
   sign ++ Dec.render 3 (Dec.fmt 3 (tmNum (X.abs d))) ++ "/" ++ a.1.1
 
+/-! ## C18: `FldExporter.write` on a recording stub
+
+The model `Op.Fld.write` is parametric in what the function uses of NumPy and of the engine.  Here the engine is the log
+of what was done to it and an array is a description of where it came from, so that the result shows the order of the
+operations, which column went to which variable, in which state of the engine the blocks were read and what was stacked. -/
+
+inductive WArr where
+  | given (shape : List Nat)          -- the argument `input_values`, by its shape
+  | col (i : Nat)                     -- `input_values[:, i]`
+  | inputs (after : Nat)              -- `engine.input_values`, read after so many operations on the engine
+  | outputs (after : Nat)             -- `engine.output_values`
+  | empty                             -- `[]`
+  | stacked (l : List WArr)           -- `np.hstack(values)`
+deriving Inhabited
+
+def wAtleast2d : WArr → WArr
+  | .given [] => .given [1, 1]
+  | .given [k] => .given [1, k]
+  | a => a
+
+def wNcols : WArr → Nat
+  | .given s => s.getD 1 0
+  | _ => 0
+
+def wOps : Op.Fld.WriteOps (List SExp) WArr :=
+  { atleast2d := wAtleast2d
+    ncols := wNcols
+    col := fun _ i => .col i
+    restart := fun e => e ++ [atom "restart"]
+    setInput := fun e name a => e ++ [list [atom "set", tmHex name, match a with | .col i => ofNat i | _ => atom "?"]]
+    process := fun e => e ++ [atom "process"]
+    inputBlock := fun e => .inputs e.length
+    outputBlock := fun e => .outputs e.length
+    emptyBlock := .empty
+    hstack := .stacked }
+
+def wBlock : WArr → SExp
+  | .inputs k => list [atom "inputs", ofNat k]
+  | .outputs k => list [atom "outputs", ofNat k]
+  | .empty => list [atom "empty"]
+  | _ => atom "?"
+
 def tieModels : List SExp → Option SExp
   | [atom "infer-type", list outs, list blocks] => do
       let e : Op.Infer.Engine := { outputs := (← outs.mapM tmDefuzz), blocks := (← blocks.mapM (fun b => do pure ⟨← b.asBool⟩)) }
@@ -131,6 +175,15 @@ def tieModels : List SExp → Option SExp
       | none => pure (atom "value-error")
       | some none => pure (atom "none")
       | some (some g) => pure (list [atom "some", atom g.1.name, ofX g.2])
+  -- C18: `(fld-write (in…) (out…) inputValues outputValues headers sep (d…))`: names hex-encoded, `(d…)` the shape of
+  -- the argument `input_values`
+  | [atom "fld-write", list ins, list outs, iv, ov, hd, sep, list shape] => do
+      let ins ← ins.mapM tmText
+      let outs ← outs.mapM tmText
+      match Op.Fld.write wOps ins outs (← iv.asBool) (← ov.asBool) (← hd.asBool) (← tmText sep) [] (.given (← shape.mapM asNat)) with
+      | none => pure (atom "value-error")
+      | some (e, out, header) =>
+        pure (list [atom "ok", list e, (match out with | .stacked l => list (l.map wBlock) | _ => atom "?"), tmHex header])
   -- C10: `Aggregated.range()` = `maximum - minimum` (the model of `C10.code_aggregatedRange`)
   | [atom "wrange", lo, hi] => do pure (ofX (X.sub (← hi.asX) (← lo.asX)))
   | _ => none
